@@ -1,0 +1,68 @@
+//go:build verif
+
+// Contracts for package rewrite, checked by /verif/gocv (comment-only file; no code).
+
+package rewrite
+
+// ---- C02: every split aggregating rule gets its own internal predicate --------------------------------------
+// The name of the n-th internal predicate for a head symbol (fmt.Sprintf is an assumed function of its arguments).
+//@ spec func tmpName(s string, n int) string = sprintf("%s%d%s", s, n, ast.InternalPredicateSuffix)
+// ASSUMED about the decimal rendering: for one symbol, different counters give different names.
+//@ axiom tmpNameInj(s string, a int, b int): tmpName(s, a) == tmpName(s, b) ==> a == b
+//@   auto
+
+//@ func (gen *nameGen) freshPredicateName(sym, arity)
+//@   requires gen != nil && 0 <= gen.n && gen.n <= 4611686018427387904
+//@   modifies gen.n
+//@   ensures gen.n == old(gen.n) + 1
+//@   ensures result.Arity == arity && result.Symbol == tmpName(sym.Symbol, gen.n)
+
+//@ func isSingleAtomPremise(premises)
+//@   pure
+//@   ensures result == (len(premises) == 1 && premises[0] is ast.Atom)
+
+// A rule is split when it has a do-transform and a body other than one atom.
+//@ spec func split(c ast.Clause) bool = !(c.Transform == nil || c.Transform.IsLetTransform() || isSingleAtomPremise(c.Premises))
+//@ spec func nSplit(rs []ast.Clause, m int) int = m <= 0 ? 0 : nSplit(rs, m - 1) + (split(rs[m-1]) ? 1 : 0)
+//@ spec func nOut(rs []ast.Clause, m int) int = m <= 0 ? 0 : nOut(rs, m - 1) + (split(rs[m-1]) ? 2 : 1)
+
+// Later split rules have larger counters.
+//@ lemma splitOrder(rs []ast.Clause, a int, b int):
+//@   0 <= a && a <= b ==> nSplit(rs, a) <= nSplit(rs, b)
+//@   decreases b - a
+//@   induct splitOrder(rs, a, b - 1)
+//@   auto
+
+//@ func getVars(term, vars)
+//@   requires vars != nil
+//@   modifies vars
+//@   opt nosafety
+
+//@ func makeHead(sym, vars)
+//@   trusted
+//@   modifies nothing
+//@   ensures result.Predicate == sym
+
+// Rewrite: rule m of the stratum appears at position nOut(rules, m) of the result; an unsplit rule is copied, a split
+// rule becomes (internal head :- the body) followed by (head :- internal atom |> transform), the internal predicate
+// being named by the running count of split rules.
+//@ spec func outOK(rs []ast.Clause, out []ast.Clause, m int) bool =
+//@      (!split(rs[m]) ==> out[nOut(rs, m)] == rs[m]) &&
+//@      (split(rs[m]) ==>
+//@         out[nOut(rs, m)].Head.Predicate.Symbol == tmpName(rs[m].Head.Predicate.Symbol, nSplit(rs, m + 1)) &&
+//@         out[nOut(rs, m)].Premises == rs[m].Premises && out[nOut(rs, m)].Transform == nil && out[nOut(rs, m)].HeadTime == nil &&
+//@         out[nOut(rs, m) + 1].Head == rs[m].Head && out[nOut(rs, m) + 1].HeadTime == rs[m].HeadTime && out[nOut(rs, m) + 1].Transform == rs[m].Transform &&
+//@         len(out[nOut(rs, m) + 1].Premises) == 1 && out[nOut(rs, m) + 1].Premises[0] is ast.Atom && (out[nOut(rs, m) + 1].Premises[0] as ast.Atom) == out[nOut(rs, m)].Head)
+
+//@ func Rewrite(stratum)
+//@   opt nosafety
+//@   modifies nothing
+//@   ensures len(result.Rules) == nOut(stratum.Rules, len(stratum.Rules))
+//@   ensures forall m int :: 0 <= m && m < len(stratum.Rules) ==> outOK(stratum.Rules, result.Rules, m)
+//@   ensures forall a int, b int :: 0 <= a && a < b && b < len(stratum.Rules) && split(stratum.Rules[a]) && split(stratum.Rules[b]) && stratum.Rules[a].Head.Predicate.Symbol == stratum.Rules[b].Head.Predicate.Symbol
+//@             ==> result.Rules[nOut(stratum.Rules, a)].Head.Predicate.Symbol != result.Rules[nOut(stratum.Rules, b)].Head.Predicate.Symbol
+//@   loop 1 invariant len(newRules) == nOut(stratum.Rules, rangeindex + 1) && gen.n == nSplit(stratum.Rules, rangeindex + 1)
+//@   loop 1 invariant 0 <= gen.n && gen.n <= rangeindex + 1
+//@   loop 1 invariant forall m int :: 0 <= m && m <= rangeindex + 1 ==> 0 <= nOut(stratum.Rules, m) && nOut(stratum.Rules, m) <= len(newRules) && 0 <= nSplit(stratum.Rules, m) && nSplit(stratum.Rules, m) <= gen.n
+//@   loop 1 invariant forall m int :: 0 <= m && m < rangeindex + 1 ==> nOut(stratum.Rules, m + 1) == nOut(stratum.Rules, m) + (split(stratum.Rules[m]) ? 2 : 1) && nSplit(stratum.Rules, m + 1) == nSplit(stratum.Rules, m) + (split(stratum.Rules[m]) ? 1 : 0)
+//@   loop 1 invariant forall m int :: 0 <= m && m < rangeindex + 1 ==> outOK(stratum.Rules, newRules, m)
